@@ -28,7 +28,7 @@ import (
 var modes = []string{"", "prefer_ocsp", "prefer_crl", "ocsp_only", "crl_only", "disabled"}
 var ocspOutcomes = []string{"no-aia", "good", "revoked", "unavailable"}
 var crlOutcomes = []string{"none-known", "listed", "not-listed", "cdp-unavailable"}
-var shapes = []string{"empty", "leaf-int-root", "two-chains", "leaf-int"}
+var shapes = []string{"empty", "leaf-int-root", "two-chains", "leaf-int", "leaf-only"}
 
 func ocspEnabled(m string) bool { return m == "" || m == "prefer_ocsp" || m == "prefer_crl" || m == "ocsp_only" }
 func crlEnabled(m string) bool  { return m == "" || m == "prefer_ocsp" || m == "prefer_crl" || m == "crl_only" }
@@ -69,7 +69,7 @@ type cfgKey struct {
 
 func main() {
 	run := report.New("C03", "exploration")
-	run.Rule("cells = mode{unset,prefer_ocsp,prefer_crl,ocsp_only,crl_only,disabled} x OCSP{no AIA,good,revoked,unavailable} x aia_strict x CRL{none known,listed,not listed,CDP unavailable} x cdp_strict x backend x chain shape{empty, leaf-int-root, two chains, leaf-int}; oracle = independently written mode table + side conditions from origin hit logs and a work_dir listing (disabled: no hits, work_dir untouched; ocsp_only: no CRL-origin hits; crl_only: no responder hits); non-trivial = cell whose chain list is non-empty (a mechanism could have decided); distinct = cell descriptor")
+	run.Rule("cells = mode{unset,prefer_ocsp,prefer_crl,ocsp_only,crl_only,disabled} x OCSP{no AIA,good,revoked,unavailable} x aia_strict x CRL{none known,listed,not listed,CDP unavailable} x cdp_strict x backend x chain shape{empty, leaf-int-root, two chains, leaf-int, leaf only}; oracle = independently written mode table + side conditions from origin hit logs and a work_dir listing (disabled: no hits, work_dir untouched; ocsp_only: no CRL-origin hits; crl_only: no responder hits); non-trivial = cell whose chain list is non-empty (a mechanism could have decided); distinct = cell descriptor")
 	run.Assume("'unavailable' is modelled by an origin answering HTTP 500 + html (fails without loader retries); the refused-connection variant is added in the thorough tier for a sample")
 	scratch, _ := report.Scratch("C03")
 	sut.QuietStderr(filepath.Join(scratch, "stderr.log"))
@@ -127,7 +127,7 @@ func main() {
 		before := dirListing(workDir)
 		cfg := sut.CRLCfg(workDir, k.Backend, "verify", "fetch_actively", k.CDPStrict, "")
 		cfg.TrustedSignatureCertsFiles = []string{intPEM}
-		v, err := sut.Provision(sut.Config{Mode: k.Mode, CRL: cfg, OCSP: &config.OCSPConfig{OCSPAIAStrict: k.AIAStrict}})
+		v, err := sut.Provision(sut.Config{Mode: k.Mode, CRL: cfg, OCSP: &config.OCSPConfig{OCSPAIAStrict: k.AIAStrict, TrustedResponderCertsFiles: []string{intPEM}}})
 		if err != nil {
 			run.Violation("provision-failed", fmt.Sprintf("Provision failed for %+v: %v", k, err), &report.Replay{Case: k})
 			continue
@@ -173,6 +173,10 @@ func main() {
 						chains = [][]*x509.Certificate{chain, {chain[0], w.Int.Cert, cross.Cert}}
 					case "leaf-int":
 						chains = [][]*x509.Certificate{chain[:2]}
+					case "leaf-only":
+						// the client certificate itself is a trust anchor of the server: the issuer is
+						// known to the validator only as configured trusted signer / responder certificate
+						chains = [][]*x509.Certificate{chain[:1]}
 					}
 					err := v.Verify(chains...)
 					want := expectReject(k.Mode, oc, cc, shape, k.AIAStrict, k.CDPStrict)
@@ -242,7 +246,7 @@ func main() {
 			run.Violation("crl-enabled.never-fetched-cdp", fmt.Sprintf("no CRL-origin hit although CRL checking is enabled (%+v)", k), &report.Replay{Case: k})
 		}
 		if ci%7 == 0 {
-			run.Sample(map[string]any{"config": fmt.Sprintf("%+v", k), "crl_origin_hits": crlHits, "responder_hits": ocspHits, "cells": 64})
+			run.Sample(map[string]any{"config": fmt.Sprintf("%+v", k), "crl_origin_hits": crlHits, "responder_hits": ocspHits, "cells": 80})
 		}
 		_ = os.RemoveAll(workDir)
 	}
